@@ -154,7 +154,7 @@ Definition gcs_ok (gc sup : string) (revs : list event) (gs : list ogc) : bool :
 (* ---- classes of the recorded findings (predicates on the input history) *)
 
 (* D21: the configured GatewayClass is not (any more) among the delivered classes *)
-Definition class_D21 (gc : string) (revs : list event) : bool := negb (gc_present gc revs).
+Definition class_D21_now (gc : string) (revs : list event) : bool := negb (gc_present gc revs).
 
 (* D20: Gateways that exist, name another class now, and named the configured class earlier *)
 Definition stale_keys (gc : string) (revs : list event) : list key :=
@@ -182,7 +182,7 @@ Fixpoint oracle_from (gc sup : string) (revs : list event) (h : list (list event
   match h, obs with
   | b :: h', sn :: obs' =>
       let revs' := rev_append b revs in
-      if sn_panic sn then (if class_D21 gc revs' then [code_D21] else [code_violation])
+      if sn_panic sn then (if class_D21_now gc revs' then [code_D21] else [code_violation])
       else if negb (gcs_ok gc sup revs' (sn_gcs sn)) then [code_violation]
       else if deps_ok (wanted gc revs') (sn_deps sn) then oracle_from gc sup revs' h' obs'
       else if deps_ok_modulo_D20 gc revs' (sn_deps sn) then [code_D20]
